@@ -135,3 +135,136 @@ def wrap_text_lines(n: int, width: int) -> bool:
     if any(len(l) != width for l in lines[:-1]):
         return False
     return n == 0 or 0 < len(lines[-1]) <= width
+
+
+# ---- FASTA / NEXUS record assembly (pure Python over samples(), alignments(), trees()) ----------------------------
+from tskit import text_formats as _tf  # noqa: E402
+
+
+def _tf_print(*args, sep=" ", end="\n", file=None):
+    file.write(sep.join(str(a) for a in args) + end)
+
+
+_tf.print = _tf_print  # CrossHair silences the builtin print
+
+
+class _Out:
+    def __init__(self):
+        self.parts = []
+
+    def write(self, s):
+        self.parts.append(s)
+
+    def text(self):
+        return "".join(self.parts)
+
+
+class _Iv:
+    def __init__(self, left, right):
+        self.left = left
+        self.right = right
+
+
+class _FakeTree:
+    def __init__(self, k):
+        self.interval = _Iv(float(k), float(k + 1))
+        self.k = k
+
+    def as_newick(self, precision=None):
+        return "(tree%d);" % self.k
+
+
+class _FakeTS:
+    """What write_fasta / write_nexus read: sample ids, one alignment per sample, the trees."""
+
+    def __init__(self, samples, alignments, ntrees, discrete=True, num_sites=1):
+        self._samples = samples
+        self._alignments = alignments
+        self.num_samples = len(samples)
+        self.discrete_genome = discrete
+        self.num_sites = num_sites
+        self.sequence_length = float(len(alignments[0])) if alignments else 1.0
+        self._ntrees = ntrees
+        self.asked = None
+
+    def samples(self):
+        return list(self._samples)
+
+    def alignments(self, reference_sequence=None, missing_data_character=None):
+        self.asked = (reference_sequence, missing_data_character)
+        return iter(self._alignments)
+
+    def trees(self):
+        return iter(_FakeTree(k) for k in range(self._ntrees))
+
+
+_ALN = ["ACGTAC", "TTGTAA", "NNGTCC"]
+
+
+def _wrap(a, w):
+    return [a] if w == 0 else [a[i:i + w] for i in range(0, len(a), w)]
+
+
+def fasta_records_are_named_after_their_nodes(s0: int, s1: int, s2: int, wsel: int) -> bool:
+    """
+    write_fasta: one record per sample, in samples() order, headed '>n<node id>' (whatever the ids are), carrying that
+    sample's alignment wrapped at the requested width - compared with the whole expected text.
+    pre: 7 <= s0 < s1 < s2 <= 11
+    pre: 0 <= wsel <= 3
+    post: _
+    """
+    width = (0, 4, 6, 7)[wsel]
+    ts = _FakeTS([s0, s1, s2], _ALN, 1)
+    out = _Out()
+    _tf.write_fasta(ts, out, wrap_width=width, reference_sequence=None, missing_data_character="N")
+    want = ""
+    for u, a in zip([s0, s1, s2], _ALN):
+        want += ">n" + str(u) + "\n"
+        for ln in _wrap(a, width):
+            want += ln + "\n"
+    return out.text() == want and ts.asked == (None, "N")
+
+
+def fasta_rejects_bad_widths(width: int) -> bool:
+    """
+    pre: -3 <= width <= 3
+    post: _
+    """
+    ts = _FakeTS([0, 1, 2], _ALN, 1)
+    try:
+        _tf.write_fasta(ts, _Out(), wrap_width=width, reference_sequence=None, missing_data_character=None)
+    except ValueError:
+        return width < 0
+    return width >= 0
+
+
+def nexus_blocks(s0: int, s1: int, s2: int, ntrees: int, trees_flag: int, aln_flag: int, discrete: bool, num_sites: int) -> bool:
+    """
+    write_nexus: TAXA lists the samples as n<id> in order; the DATA block (present iff requested, or by default for a
+    discrete genome with sites) has one row per sample pairing n<id> with its alignment; the TREES block (present
+    unless switched off) has one TREE line per tree labelled t<left>^<right> - compared with the whole expected text.
+    pre: 8 <= s0 < s1 < s2 <= 11
+    pre: 1 <= ntrees <= 2 and 0 <= trees_flag <= 2 and 0 <= aln_flag <= 2 and 0 <= num_sites <= 1
+    post: _
+    """
+    samples = [s0, s1, s2]
+    ts = _FakeTS(samples, _ALN, ntrees, discrete, num_sites)
+    out = _Out()
+    flag = {0: None, 1: True, 2: False}
+    _tf.write_nexus(ts, out, precision=None, include_trees=flag[trees_flag], include_alignments=flag[aln_flag],
+                    reference_sequence=None, missing_data_character=None)
+    names = ["n" + str(u) for u in samples]
+    want = "#NEXUS\nBEGIN TAXA;\n  DIMENSIONS NTAX=3;\n  TAXLABELS " + names[0] + " " + names[1] + " " + names[2] + ";\nEND;\n"
+    want_aln = (discrete and num_sites > 0) if aln_flag == 0 else aln_flag == 1
+    if want_aln:
+        want += "BEGIN DATA;\n  DIMENSIONS NCHAR=6;\n  FORMAT DATATYPE=DNA MISSING=?;\n  MATRIX\n"
+        for n, a in zip(names, _ALN):
+            want += "    " + n + " " + a + "\n"
+        want += "  ;\nEND;\n"
+    if trees_flag != 2:
+        prec = 0 if discrete else 17
+        want += "BEGIN TREES;\n"
+        for k in range(ntrees):
+            want += "  TREE t%s^%s = [&R] (tree%d);\n" % ("{0:.{1}f}".format(float(k), prec), "{0:.{1}f}".format(float(k + 1), prec), k)
+        want += "END;\n"
+    return out.text() == want
